@@ -111,6 +111,9 @@ func getFileDataFromRemote(reqURL string) (*whispertool.Header, TimeSeriesList, 
 	if err != nil {
 		return nil, nil, err
 	}
+	if err := remoteStatusError(resp, data); err != nil {
+		return nil, nil, err
+	}
 
 	if len(data) == 0 {
 		return nil, nil, convertRemoteErrNotExist(resp)
